@@ -54,6 +54,18 @@ fn main() {
     }
     let cmd2 = cmd.clone();
     let tier = a.tier;
+    // last resort against a step of the code under test that never returns (an endless loop; a hang the engines do
+    // not model): every check enforces its own wall budget between steps, this fires only if one is stuck inside
+    {
+        let limit = std::time::Duration::from_secs(std::env::var("VERIF_HARD_LIMIT_S").ok().and_then(|v| v.parse().ok()).unwrap_or(if tier == report::Tier::Quick { 600 } else { 3 * 3600 }));
+        let name = cmd.clone();
+        std::thread::spawn(move || {
+            std::thread::sleep(limit);
+            eprintln!("MACHINERY-ERROR: {name} exceeded its hard time limit of {limit:?}: a step does not terminate (no verdict)");
+            tower::cleanup_scratch();
+            std::process::exit(2);
+        });
+    }
     let code = std::panic::catch_unwind(std::panic::AssertUnwindSafe(|| run_check(cmd2.as_str(), tier))).unwrap_or_else(|p| {
         // the explorer died of a panic: if it was raised by the code under test at a site no engine guards,
         // that is a finding about that code (the property's check could not even be completed); else machinery
